@@ -163,6 +163,11 @@ let () =
             let g = if f.(0) = "dec_all" then dec_s else enum_s in
             let prefix = unhex f.(2) in
             all_strings (int_of_string f.(3)) [] (fun bs -> emit (g f.(1) (prefix @ bs)))
+        | "enum_cf_all" ->
+            let body = unhex f.(2) in
+            for c = 0 to 255 do for i = 0 to 255 do
+              emit (enum_s f.(1) (n_of_int c :: n_of_int i :: n_of_int (List.length body) :: body))
+            done done
         | "dec_trunc" | "enum_trunc" ->
             let g = if f.(0) = "dec_trunc" then dec_s else enum_s in
             let bs = Array.of_list (unhex f.(2)) in
